@@ -175,11 +175,14 @@ def tree_of(S, src):
     return t if t[0] == 'Markup' else None
 
 
-def build(ctx, tree, kt, counter, concrete_ws=False):
+MARKUP_PARENTS = ('Markup', 'Heading', 'ListItem', 'EnumItem', 'TermItem', 'Strong', 'Emph')     # their whitespace tokens are lexed in markup mode
+
+
+def build(ctx, tree, kt, counter, concrete_ws=False, parent=None):
     kind, x = tree
     k = kt.k(kind)
     if isinstance(x, list):
-        return Node(k, children=[build(ctx, c, kt, counter, concrete_ws) for c in x])
+        return Node(k, children=[build(ctx, c, kt, counter, concrete_ws, kind) for c in x])
     if kind in ('Space', 'Parbreak') and not concrete_ws:
         # same class per character: a line break stays some line break (CR LF pairs stay as they are), a blank stays some blank
         chars = []
@@ -192,6 +195,9 @@ def build(ctx, tree, kt, counter, concrete_ws=False):
             ctx.assume(is_ws(c))
             nl = z3.Or(*[c == k for k in T.TYPST_NEWLINES])
             ctx.assume(nl if ord(ch) in T.TYPST_NEWLINES else z3.Not(nl))
+            if parent in MARKUP_PARENTS or parent is None:
+                # lexer fact: in markup only the blank and the tab (and the newline characters) are whitespace; other White_Space scalars are text
+                ctx.assume(z3.Or(nl, c == 32, c == 9))
             chars.append(c)
         counter[0] += 1
         return Node(k, text=Str(tuple(chars)))
